@@ -28,8 +28,8 @@ func init() {
 }
 
 var c05RawHandlers = map[string]string{
-	"HandleLintPackageNoImportCycle": "needs all files (imports included) to build the package graph; skips import files when annotating",
-	"HandleLintProtovalidate":        "needs the whole request for extension resolution; delegates to buflintvalidate per non-import file",
+	"HandleLintPackageNoImportCycle":          "needs all files (imports included) to build the package graph; skips import files when annotating",
+	"HandleLintProtovalidate":                 "needs the whole request for extension resolution; delegates to buflintvalidate per non-import file",
 	"HandleLintStablePackageNoImportUnstable": "needs all files to learn each import's package",
 }
 
@@ -220,13 +220,13 @@ func runC05(c *Ctx) {
 		c.Ob("TRAVERSAL", "bufprotosource."+it.fn, fr.Decl.Pos(), visitsOwn && recurses, true, "calls f on each of .%s() and recurses into each of .Messages(): own=%v recursion=%v", it.own, visitsOwn, recurses)
 	}
 	adapterNeeds := map[string][]string{
-		"NewLintMessageRuleHandler":   {"ForEachMessage"},
-		"NewLintEnumRuleHandler":      {"ForEachEnum"},
-		"NewLintEnumValueRuleHandler": {"ForEachEnum", "Values"},
-		"NewLintFieldRuleHandler":     {"ForEachMessage", "Fields", "Extensions"},
-		"NewLintOneofRuleHandler":     {"ForEachMessage", "Oneofs"},
-		"NewLintServiceRuleHandler":   {"Services"},
-		"NewLintMethodRuleHandler":    {"Services", "Methods"},
+		"NewLintMessageRuleHandler":    {"ForEachMessage"},
+		"NewLintEnumRuleHandler":       {"ForEachEnum"},
+		"NewLintEnumValueRuleHandler":  {"ForEachEnum", "Values"},
+		"NewLintFieldRuleHandler":      {"ForEachMessage", "Fields", "Extensions"},
+		"NewLintOneofRuleHandler":      {"ForEachMessage", "Oneofs"},
+		"NewLintServiceRuleHandler":    {"Services"},
+		"NewLintMethodRuleHandler":     {"Services", "Methods"},
 		"NewLintFileImportRuleHandler": {"FileImports"},
 	}
 	for _, an := range sortedKeys(adapterNeeds) {
